@@ -267,6 +267,99 @@ template <class G> struct Exec {
   }
   template <class A, class B> static void sub_write(A&, const B&, int, Out& out, std::false_type, std::false_type) { out.status = 9; }
 
+  // ---- results bound to const references ------------------------------------------------------------------------
+  // User code binds results to `const auto&` to avoid copies.  Whatever the library returns (a value whose lifetime
+  // is extended, or a reference into the unchanged operand) must stay valid and unchanged while other objects of the
+  // same type are used.  bit3 of Out::flags reports a change; the held values themselves are the outputs.
+  typedef Eigen::Matrix<S, Eigen::Dynamic, Eigen::Dynamic> DynM;
+  template <class D1, class D2> static bool same_bits(const Eigen::MatrixBase<D1>& x, const Eigen::MatrixBase<D2>& y) {
+    if (x.rows() != y.rows() || x.cols() != y.cols()) return false;
+    for (int c = 0; c < x.cols(); ++c)
+      for (int r = 0; r < x.rows(); ++r) { const S u = x(r, c), v = y(r, c); if (std::memcmp(&u, &v, sizeof(S)) != 0) return false; }
+    return true;
+  }
+  template <class A, class B> static double activity(St& st, const A& a, const B& b) {
+    JJ j1(true, false), j2(true, false);
+    double acc = 0;
+    acc += (double)b.inverse(j1.ref()).coeffs()(0);
+    acc += (double)b.log(j1.ref()).coeffs()(0);
+    acc += (double)b.adj()(0, 0);
+    acc += (double)a.compose(b, j1.ref(), j2.ref()).coeffs()(0);
+    acc += (double)b.between(a, j1.ref(), j2.ref()).coeffs()(0);
+    acc += (double)b.act(st.p[0])(0);
+    acc += (double)b.rminus(a).coeffs()(0);
+    acc += (double)G::Identity().coeffs()(0);
+    return acc;
+  }
+  template <class A, class B> static void hold_rot(St& st, const A& a, const B& b, Out& out, std::true_type) {
+    const auto& R = a.rotation();
+    const auto& Tf = a.transform();
+    const DynM R0 = R, T0 = Tf, Rb0 = b.rotation();
+    double acc = activity(st, a, b);
+    acc += (double)b.rotation()(0, 0) + (double)b.transform()(0, 0);
+    if (!same_bits(R, R0) || !same_bits(Tf, T0)) out.flags |= 8;
+    // two results of the same type alive inside one expression
+    const DynM rel = a.rotation().transpose() * b.rotation();
+    const DynM rel0 = R0.transpose() * Rb0;
+    if (rel0.allFinite() && !((rel - rel0).cwiseAbs().maxCoeff() <= S(64) * std::numeric_limits<S>::epsilon())) out.flags |= 8;
+    put(out.j2, out.n2, R);
+    if (out.nv < MAXV) out.v[out.nv++] = acc;
+  }
+  template <class A, class B> static void hold_rot(St& st, const A& a, const B& b, Out& out, std::false_type) {
+    const double acc = activity(st, a, b);
+    if (out.nv < MAXV) out.v[out.nv++] = acc;
+  }
+  template <class A, class B> static void hold(St& st, const A& a, const B& b, const OpRec&, Out& out) {
+    const auto& inv = a.inverse();
+    const auto& lg = a.log();
+    const auto& ad = a.adj();
+    const auto& co = a.coeffs();
+    const Eigen::Matrix<S, Rep, 1> inv0 = inv.coeffs(), co0 = co;
+    const Eigen::Matrix<S, DoF, 1> lg0 = lg.coeffs();
+    const Jac ad0 = ad;
+    out.nv = 0;
+    hold_rot(st, a, b, out, HasRotation());
+    const double acc = out.nv ? out.v[out.nv - 1] : 0.0;
+    if (!same_bits(inv.coeffs(), inv0) || !same_bits(lg.coeffs(), lg0) || !same_bits(ad, ad0) || !same_bits(co, co0)) out.flags |= 8;
+    Eigen::Matrix<S, Rep + DoF + 1, 1> all;
+    all.template head<Rep>() = inv.coeffs(); all.template segment<DoF>(Rep) = lg.coeffs(); all(Rep + DoF) = S(acc);
+    put(out.v, out.nv, all);
+    put(out.j1, out.n1, ad);
+  }
+  template <class A> static void hold_b(St& st, const A& a, const OpRec& op, Out& out) {
+    switch (op.kb) {
+      case K_OWN: hold(st, a, st.e[op.b], op, out); break;
+      case K_MAP: { const MG& cm = st.vm[op.b]; hold(st, a, cm, op, out); } break;
+      default: hold(st, a, st.vc[op.b], op, out); break;
+    }
+  }
+  template <class TA, class TB> static void thold(const TA& a, const TB& b, Out& out) {
+    const auto& h = a.hat();
+    const auto& ex = a.exp();
+    const auto& rj = a.rjac();
+    const auto& lj = a.ljac();
+    const auto& ng = -a;
+    const auto& co = a.coeffs();
+    const DynM h0 = h;
+    const Eigen::Matrix<S, Rep, 1> ex0 = ex.coeffs();
+    const Jac rj0 = rj, lj0 = lj;
+    const Eigen::Matrix<S, DoF, 1> ng0 = ng.coeffs(), co0 = co;
+    JJ j1(true, false);
+    double acc = 0;
+    acc += (double)b.hat()(0, 0);
+    acc += (double)b.exp(j1.ref()).coeffs()(0);
+    acc += (double)b.rjac()(0, 0) + (double)b.ljac()(0, 0) + (double)b.rjacinv()(0, 0) + (double)b.ljacinv()(0, 0);
+    acc += (double)(a + b).coeffs()(0) + (double)(-b).coeffs()(0) + (double)b.inner(a);
+    acc += (double)T::Zero().coeffs()(0);
+    if (!same_bits(h, h0) || !same_bits(ex.coeffs(), ex0) || !same_bits(rj, rj0) || !same_bits(lj, lj0) ||
+        !same_bits(ng.coeffs(), ng0) || !same_bits(co, co0)) out.flags |= 8;
+    Eigen::Matrix<S, Rep + DoF + 1, 1> all;
+    all.template head<Rep>() = ex.coeffs(); all.template segment<DoF>(Rep) = ng.coeffs(); all(Rep + DoF) = S(acc);
+    put(out.v, out.nv, all);
+    put(out.j1, out.n1, rj);
+    put(out.j2, out.n2, h);
+  }
+
   // ---- element x element -----------------------------------------------------
   template <class A, class B> static void ee(const A& a, const B& b, const OpRec& op, Out& out) {
     const bool w1 = op.mask & 1, w2 = op.mask & 2;
@@ -340,6 +433,7 @@ template <class G> struct Exec {
         put_e(out, x); put(out.j1, out.n1, y.coeffs()); put(out.j2, out.n2, v[1].coeffs());
       } break;
       case OP_ACCESSORS: { Collector c(out); if (!Acc<G>::read(a, c)) out.status = 9; } break;
+      case OP_HOLD: hold_b(st, a, op, out); break;
       case OP_DATAPTR: {
         // v[0]: the view reads the user's buffer in place; v[1]: internal sub-views sit at the documented offsets
         const void* expect = (op.ka == K_OWN) ? (const void*)st.e[op.a].data() : (const void*)st.ebuf[op.a];
@@ -382,6 +476,7 @@ template <class G> struct Exec {
       case OP_T_ADD_T: put_e(out, a + b); break;
       case OP_T_SUB_T: put_e(out, a - b); break;
       case OP_T_ISAPPROX: put_scalar(out.v, out.nv, a.isApprox(b, S(op.s)) ? 1.0 : 0.0); break;
+      case OP_T_HOLD: thold(a, b, out); break;
       default: out.status = 9;
     }
   }
@@ -436,7 +531,7 @@ template <class G> struct Exec {
         }
         break;
       case OP_INNER: case OP_BRACKET: case OP_TPLUS: case OP_TMINUS: case OP_T_ADD_T: case OP_T_SUB_T:
-      case OP_T_ISAPPROX:
+      case OP_T_ISAPPROX: case OP_T_HOLD:
         tt_b(st, t, op, out); break;
       default: out.status = 9;
     }
@@ -539,7 +634,13 @@ template <class G> struct Exec {
       case OP_M_ASSIGN: a = b; put_e(out, a); break;
       case OP_M_MULEQ: a *= b; put_e(out, a); break;
       case OP_M_ASSIGN_EIGEN: a = b.coeffs(); put_e(out, a); break;
-      case OP_M_MOVE_ASSIGN: move_assign(a, b, op); put_e(out, a); break;
+      case OP_M_MOVE_ASSIGN: {
+        const S* const before = a.data();
+        if (!(op.variant & V_ALT) && op.c % 3 == 2) { Eigen::Matrix<S, Rep, 1> v = b.coeffs(); a = std::move(v); }   // rvalue coefficient vector
+        else move_assign(a, b, op);
+        if (a.data() != before || !same_bits(a.coeffs(), b.coeffs())) out.flags |= 4;
+        put_e(out, a);
+      } break;
       case OP_M_COEFFWRITE:
         for (int i = 0; i < Rep; ++i) {
           const S v = b.coeffs()(i);
@@ -601,6 +702,44 @@ template <class G> struct Exec {
   }
 
   // ---- tangent mutators -----------------------------------------------------------------------
+  // t = std::move(u) in its spellings: an owning temporary, a temporary view of u's storage, an rvalue coefficient
+  // vector, temporaries returned by the sub-view accessors.  The destination keeps its own storage and ends up
+  // with u's coefficients (bit2 of Out::flags otherwise).
+  template <class TA, class TB> static void sub_move(TA& a, const TB& b, std::true_type, std::false_type) {
+    T bc(b);
+    Eigen::Map<manif::SO3Tangent<S> > av(a.asSO3());
+    const long off = (long)(av.data() - a.data());
+    a.coeffs() = b.coeffs();
+    for (int i = 0; i < 3; ++i) a.coeffs()(off + i) += S(1);
+    a.asSO3() = bc.asSO3();
+  }
+  template <class TA, class TB> static void sub_move(TA& a, const TB& b, std::false_type, std::true_type) {
+    T bc(b);
+    typename T::template MapElement<0> av(a.template element<0>());
+    const long off = (long)(av.data() - a.data());
+    const int n = (int)av.coeffs().size();
+    a.coeffs() = b.coeffs();
+    for (int i = 0; i < n; ++i) a.coeffs()(off + i) += S(1);
+    a.template element<0>() = bc.template element<0>();
+    enum { L = G::BundleSize - 1 };
+    typename T::template MapElement<L> al(a.template element<L>());
+    const long offl = (long)(al.data() - a.data());
+    a.coeffs()(offl) += S(1);
+    a.template element<L>() = bc.template element<L>();
+  }
+  template <class TA, class TB> static void sub_move(TA& a, const TB& b, std::false_type, std::false_type) {
+    MT src(const_cast<S*>(b.data())); a = std::move(src);
+  }
+  template <class TA, class TB> static void tmove(TA& a, const TB& b, const OpRec& op, Out& out) {
+    const S* const before = a.data();
+    switch (op.c % 4) {
+      case 0: { T tmp(b); a = std::move(tmp); } break;
+      case 1: { MT src(const_cast<S*>(b.data())); a = std::move(src); } break;
+      case 2: { Eigen::Matrix<S, DoF, 1> v = b.coeffs(); a = std::move(v); } break;
+      default: sub_move(a, b, HasAsSO3(), IsBundle()); break;
+    }
+    if (a.data() != before || !same_bits(a.coeffs(), b.coeffs())) out.flags |= 4;
+  }
   template <class TA, class TB> static void mut_tt(TA& a, const TB& b, const OpRec& op, Out& out) {
     switch (op.op) {
       case OP_TM_ASSIGN: a = b; break;
@@ -616,6 +755,7 @@ template <class G> struct Exec {
         }
         break;
       case OP_TM_BLOCKSET: if (!TAcc<T>::set_from(a, b)) { out.status = 9; return; } break;
+      case OP_TM_MOVE_ASSIGN: tmove(a, b, op, out); break;
       default: out.status = 9; return;
     }
     put_e(out, a);
@@ -636,7 +776,7 @@ template <class G> struct Exec {
         put_e(out, a); break;
       case OP_TM_STREAM: stream_into(a, st.t[op.b]); put_e(out, a); break;
       case OP_TM_ASSIGN: case OP_TM_PLUSEQ: case OP_TM_MINUSEQ: case OP_TM_ASSIGN_EIGEN: case OP_TM_COEFFWRITE:
-      case OP_TM_BLOCKSET:
+      case OP_TM_BLOCKSET: case OP_TM_MOVE_ASSIGN:
         switch (op.kb) {
           case K_OWN: mut_tt(a, st.t[op.b], op, out); break;
           case K_MAP: mut_tt(a, st.tm[op.b], op, out); break;
